@@ -1,1 +1,197 @@
-/-! # C15 — property theorems (stub: not built yet) -/
+import KM.Lemmas.Storage
+import KM.Gen.C15
+/-! # C15 — profiles survive storage round trips; the offline cache mirrors the primary
+
+Property theorems only.  `sync` is `copyDBIntoSQLite` (repaired) as a statement list executed
+under explicit transaction semantics `sem : TxSem` (both fields universally quantified);
+`rowsU`/`rowsS` are what the two SELECTs on the primary returned (`Selects`); `fault = some k`
+makes the k-th SQL statement report an error. -/
+namespace KM.Storage
+open KM.SiteC15
+
+variable {U B D : Type} [DecidableEq U]
+
+/-- **Exact mirror.**  A synchronisation that meets no error leaves in the cache exactly the
+primary's users and its unexpired signed records — whatever the cache held before (so
+additions, changes *and deletions* are mirrored), for every primary, cache, time and driver. -/
+theorem c15_sync_exact (sem : TxSem) (primary cache : Store U B D) (now : Int)
+    (rowsU : List (U × B)) (rowsS : List ((U × Nat) × SRec D))
+    (hu : Selects primary.users rowsU) (hs : Selects (unexpired now primary.signed) rowsS) :
+    sync sem rowsU rowsS cache none = content now primary := by
+  rw [sync_ok_eq, writesOf_innerList, writes_exact primary.users (unexpired now primary.signed) rowsU rowsS hu hs]
+  rfl
+
+/-- **Atomic.**  A synchronisation in which the k-th statement fails — for every k, including the
+COMMIT itself, whether a failed COMMIT was applied or not — leaves the cache equal to its
+previous content or to the content a fault-free run produces; never a mixture. -/
+theorem c15_sync_atomic (sem : TxSem) (cache : Store U B D)
+    (rowsU : List (U × B)) (rowsS : List ((U × Nat) × SRec D)) (k : Nat) :
+    sync sem rowsU rowsS cache (some k) = cache ∨
+    sync sem rowsU rowsS cache (some k) = sync sem rowsU rowsS cache none :=
+  sync_fault_cases sem rowsU rowsS cache k
+
+/-- **Histories.**  For every history of save / delete / saveSigned / deleteSigned / tick /
+sync(fault?) operations from a well-formed state: right after a fault-free synchronisation,
+and for as long as no further synchronisation runs, the cache equals the primary's content
+(users, unexpired signed records) at the moment of that synchronisation. -/
+theorem c15_history (s0 : State U B D) (h0 : s0.WF) (pre post : List (Op U B D)) (sem : TxSem)
+    (hpost : ∀ o ∈ post, o.isSync = false) :
+    (runOps s0 (pre ++ [.sync sem none] ++ post)).cache =
+      content (runOps s0 pre).now (runOps s0 pre).primary := by
+  rw [runOps_append, cache_nonsync_ops _ _ hpost, runOps_append]
+  have hwf := wf_runOps s0 h0 pre
+  have hsel := selects_state _ hwf
+  show (stepOp (runOps s0 pre) (.sync sem none)).cache = _
+  simp only [stepOp, stepOpWith]
+  exact c15_sync_exact sem (runOps s0 pre).primary _ _ _ _ hsel.1 hsel.2
+
+/-- **Histories, faults included.**  Whatever faults hit whichever synchronisations, the cache
+always equals its initial content or the primary's content at the moment of some earlier
+synchronisation of the history — it never holds a mixture of two moments. -/
+theorem c15_history_snapshot (s0 : State U B D) (h0 : s0.WF) (ops : List (Op U B D)) :
+    (runOps s0 ops).cache = s0.cache ∨
+    ∃ pre rest, ops = pre ++ rest ∧
+      (runOps s0 ops).cache = content (runOps s0 pre).now (runOps s0 pre).primary := by
+  induction ops generalizing s0 with
+  | nil => left; rfl
+  | cons o r ih =>
+    have hstep : runOps s0 (o :: r) = runOps (stepOp s0 o) r := rfl
+    rcases ih (stepOp s0 o) (wf_step _ s0 h0 o) with h | ⟨pre, rest, hr, h⟩
+    · cases ho : o.isSync with
+      | false => left; rw [hstep, h, cache_nonsync s0 o ho]
+      | true =>
+        cases o with
+        | sync sem fault =>
+          have hsel := selects_state s0 h0
+          have hexact := c15_sync_exact sem s0.primary s0.cache s0.now _ _ hsel.1 hsel.2
+          have hc : (stepOp s0 (.sync sem fault)).cache = s0.cache ∨
+              (stepOp s0 (.sync sem fault)).cache = content s0.now s0.primary := by
+            simp only [stepOp, stepOpWith]
+            cases fault with
+            | none => right; exact hexact
+            | some k =>
+              rcases c15_sync_atomic sem s0.cache s0.rowsU s0.rowsS k with h1 | h1
+              · left; exact h1
+              · right; exact h1.trans hexact
+          rcases hc with hc | hc
+          · left; rw [hstep, h, hc]
+          · right; exact ⟨[], _, rfl, by rw [hstep, h, hc]; rfl⟩
+        | _ => simp [Op.isSync] at ho
+    · right
+      exact ⟨o :: pre, rest, by rw [hr]; rfl, by rw [hstep, h]; rfl⟩
+
+/-- **Round trip.**  Given the codec law (decode ∘ encode = id — the assumption on
+encoding/gob), a saved profile is read back identical from the primary, and identical from
+the cache after the next completed synchronisation; saving one user changes no other row. -/
+theorem c15_roundtrip {P : Type} (c : Codec P B) (law : ∀ p, c.dec (c.enc p) = some p)
+    (s : State U B D) (h : s.WF) (u : U) (p : P) (sem : TxSem) :
+    loadProfile c (stepOp s (.save u (c.enc p))).primary.users u = some p ∧
+    loadProfile c (runOps s [.save u (c.enc p), .sync sem none]).cache.users u = some p ∧
+    ∀ v, v ≠ u → (stepOp s (.save u (c.enc p))).primary.users v = s.primary.users v := by
+  refine ⟨?_, ?_, ?_⟩
+  · simp [loadProfile, stepOp, stepOpWith, State.primary, Tbl.put, upd, law]
+  · have := c15_history s h [.save u (c.enc p)] [] sem (by simp)
+    simp only [List.append_nil] at this
+    have h2 : ([Op.save u (c.enc p)] ++ [Op.sync sem none] : List (Op U B D)) =
+        [.save u (c.enc p), .sync sem none] := rfl
+    rw [h2] at this
+    rw [this]
+    simp [loadProfile, content, runOps, stepOp, stepOpWith, State.primary, Tbl.put, upd, law]
+  · intro v hv
+    simp [stepOp, stepOpWith, State.primary, Tbl.put, upd, hv]
+
+/-! ### regenerated tables -/
+
+/-- **Statement list.**  The storage calls of `copyDBIntoSQLite` in the current source are, in
+order, exactly the statement shape the theorems above are about: both deletes are executed
+with `Exec` on the destination transaction before the re-inserts, only unexpired signed
+records are selected, both row loops test `rows.Err()`. -/
+theorem c15_sync_sites : KM.Gen.C15.syncSites = syncShape := by decide
+
+def classOK : GuardClass → Bool
+  | .guarded | .direct => true
+  | .unguarded | .unknown => false
+
+/-- **Read-only during an outage.**  Every function of the current source that writes profile
+data to the primary either cannot reach the write when the `LoadUserProfile` before it was
+answered by the cache (`guarded`), or loads nothing and writes straight to the primary, which
+fails while the primary is unreachable (`direct`); no function is `unguarded`/`unknown`.
+Consequently no write ever carries a cached (possibly stale) profile, and with the primary
+unreachable nothing is written at all. -/
+theorem c15_outage_readonly :
+    KM.Gen.C15.guardTable.all (fun r => classOK r.2.2) = true ∧
+    (KM.Gen.C15.guardTable.filter (fun r => r.2.2 == GuardClass.guarded)).length ≥ 14 ∧
+    (KM.Gen.C15.guardTable.filter (fun r => r.1 == "webauthnAuthFinish".toList)).map (·.2.2) = [GuardClass.guarded] ∧
+    (KM.Gen.C15.guardTable.filter (fun r => r.1 == "deleteUserHandler".toList)).map (·.2.2) = [GuardClass.direct] ∧
+    (∀ c, classOK c = true → ∀ writable, handlerEffect c true writable ≠ Effect.wroteStale) ∧
+    (∀ c, classOK c = true → ∀ fromCache, handlerEffect c fromCache false = Effect.refused ∨
+        handlerEffect c fromCache false = Effect.writeFailed) := by
+  refine ⟨by decide, by decide, by decide, by decide, ?_, ?_⟩
+  · intro c hc w; cases c <;> cases w <;> simp_all [classOK, handlerEffect]
+  · intro c hc f; cases c <;> cases f <;> simp_all [classOK, handlerEffect]
+
+/-! ### the code as found -/
+
+/-- `copyDBIntoSQLite` **as found** violates the property, three ways (users, blobs and signed
+data are numbers here):
+1. SQLite (`queryExecutes = false`): add user 1 and a signed record, sync, delete both in the
+   primary, sync — the cache still holds both;
+2. a driver that executes the `Query` delete (`queryExecutes = true`): the delete is outside
+   the transaction, so an error at the next statement leaves the cache with *no* users —
+   neither its previous nor its new content;
+3. the signed-row loop does not test `rows.Err()`: a read error after the first row commits a
+   cache in which record (2,1) is new and record (1,1) is still the old one. -/
+theorem c15_unfixed_counterexample :
+    ((runOpsOld (State.init : State Nat Nat Nat)
+        [.save 1 7, .saveSigned 1 1 ⟨9, 5500⟩, .sync ⟨false, false⟩ none,
+         .delete 1, .deleteSigned 1 1, .sync ⟨false, false⟩ none]).cache.users 1 = some 7 ∧
+     (runOpsOld (State.init : State Nat Nat Nat)
+        [.save 1 7, .saveSigned 1 1 ⟨9, 5500⟩, .sync ⟨false, false⟩ none,
+         .delete 1, .deleteSigned 1 1, .sync ⟨false, false⟩ none]).cache.signed (1, 1) = some ⟨9, 5500⟩ ∧
+     (runOpsOld (State.init : State Nat Nat Nat)
+        [.save 1 7, .saveSigned 1 1 ⟨9, 5500⟩, .sync ⟨false, false⟩ none,
+         .delete 1, .deleteSigned 1 1, .sync ⟨false, false⟩ none]).primary.users 1 = none) ∧
+    ((runOpsOld (State.init : State Nat Nat Nat)
+        [.save 2 4, .sync ⟨true, false⟩ none]).cache.users 2 = some 4 ∧
+     (runOpsOld (State.init : State Nat Nat Nat)
+        [.save 2 4, .sync ⟨true, false⟩ none, .sync ⟨true, false⟩ (some 4)]).cache.users 2 = none) ∧
+    ((runOpsOld (State.init : State Nat Nat Nat)
+        [.saveSigned 1 1 ⟨10, 5500⟩, .saveSigned 2 1 ⟨20, 5500⟩, .sync ⟨false, false⟩ none,
+         .saveSigned 1 1 ⟨11, 5500⟩, .saveSigned 2 1 ⟨21, 5500⟩,
+         .sync ⟨false, false⟩ (some 9)]).cache.signed (2, 1) = some ⟨21, 5500⟩ ∧
+     (runOpsOld (State.init : State Nat Nat Nat)
+        [.saveSigned 1 1 ⟨10, 5500⟩, .saveSigned 2 1 ⟨20, 5500⟩, .sync ⟨false, false⟩ none,
+         .saveSigned 1 1 ⟨11, 5500⟩, .saveSigned 2 1 ⟨21, 5500⟩,
+         .sync ⟨false, false⟩ (some 9)]).cache.signed (1, 1) = some ⟨10, 5500⟩) := by
+  decide
+
+/-- the repaired code on the first of these histories: the cache mirrors the deletions -/
+theorem c15_fixed_on_counterexample :
+    (runOps (State.init : State Nat Nat Nat)
+        [.save 1 7, .saveSigned 1 1 ⟨9, 5500⟩, .sync ⟨false, false⟩ none,
+         .delete 1, .deleteSigned 1 1, .sync ⟨false, false⟩ none]).cache.users 1 = none ∧
+    (runOps (State.init : State Nat Nat Nat)
+        [.save 1 7, .saveSigned 1 1 ⟨9, 5500⟩, .sync ⟨false, false⟩ none,
+         .delete 1, .deleteSigned 1 1, .sync ⟨false, false⟩ none]).cache.signed (1, 1) = none := by
+  decide
+
+/-! ### non-vacuity -/
+
+/-- `Selects` is satisfiable for a non-empty table, `WF` for a non-trivial state, and the codec
+law for a codec -/
+example : Selects (fun k : Nat => if k = 3 then some 8 else none) [(3, 8)] := by
+  constructor
+  · intro r hr; simp at hr; subst hr; simp
+  · intro k v h; by_cases e : k = 3 <;> simp_all
+
+example : (runOps (State.init : State Nat Nat Nat) [.save 1 7, .saveSigned 1 1 ⟨9, 5500⟩]).WF :=
+  wf_runOps _ ⟨fun _ h => absurd rfl h, fun _ h => absurd rfl h⟩ _
+
+example : ∃ c : Codec Nat Nat, ∀ p, c.dec (c.enc p) = some p := ⟨⟨id, some⟩, fun _ => rfl⟩
+
+/-- an expired record is *not* mirrored (the statement is about unexpired records only) -/
+example : (runOps (State.init : State Nat Nat Nat)
+    [.saveSigned 1 1 ⟨9, 5500⟩, .tick 6000, .sync ⟨false, false⟩ none]).cache.signed (1, 1) = none := by
+  decide
+
+end KM.Storage
